@@ -642,13 +642,23 @@ func (s *scope) storeOutputs(descriptor *Descriptor, info *reflection.Constructo
 			continue // nil result object field
 		}
 
+		key := instanceKey{Type: sibling.Type, Key: sibling.Key, Group: sibling.Group}
+
 		if sibling == descriptor {
 			requested = value
 		} else if !s.rootProvider.isRegistered(sibling) {
-			continue // removed from the collection after the Add call
+			// Removed from the collection after the Add call: nothing serves this output,
+			// but this invocation created it, so it is owned and disposed like the others
+			if !alreadyStored(stored, value) {
+				owned := *sibling
+				owned.Lifetime = Transient
+				if err := s.setInstance(&owned, key, value); err != nil && setErr == nil {
+					setErr = err
+				}
+				stored = append(stored, value)
+			}
+			continue
 		}
-
-		key := instanceKey{Type: sibling.Type, Key: sibling.Key, Group: sibling.Group}
 
 		// The constructor ran again because the output that was asked for was nil the
 		// first time: the instance this scope (or the provider) already serves for the
